@@ -45,6 +45,8 @@ type kvAddData struct {
 // AddVertex adds an edge to the graph, if it already exists
 // in the graph, it is replaced
 func (kgdb *KVInterfaceGDB) AddVertex(vertices []*gdbi.Vertex) error {
+	kgdb.kvg.graphLock.RLock()
+	defer kgdb.kvg.graphLock.RUnlock()
 	err := kgdb.kvg.kv.BulkWrite(func(tx kvi.KVBulkWrite) error {
 		var bulkErr *multierror.Error
 		for _, vert := range vertices {
@@ -122,6 +124,8 @@ func insertEdge(tx kvi.KVBulkWrite, idx *kvindex.KVIndex, graph string, edge *gr
 // AddEdge adds an edge to the graph, if the id is not "" and in already exists
 // in the graph, it is replaced
 func (kgdb *KVInterfaceGDB) AddEdge(edges []*gdbi.Edge) error {
+	kgdb.kvg.graphLock.RLock()
+	defer kgdb.kvg.graphLock.RUnlock()
 	err := kgdb.kvg.kv.BulkWrite(func(tx kvi.KVBulkWrite) error {
 		var bulkErr *multierror.Error
 		for _, edge := range edges {
@@ -138,6 +142,8 @@ func (kgdb *KVInterfaceGDB) AddEdge(edges []*gdbi.Edge) error {
 }
 
 func (kgdb *KVInterfaceGDB) BulkAdd(stream <-chan *gdbi.GraphElement) error {
+	kgdb.kvg.graphLock.RLock()
+	defer kgdb.kvg.graphLock.RUnlock()
 	err := kgdb.kvg.kv.BulkWrite(func(tx kvi.KVBulkWrite) error {
 		var bulkErr *multierror.Error
 		for elem := range stream {
@@ -164,6 +170,8 @@ func (kgdb *KVInterfaceGDB) BulkAdd(stream <-chan *gdbi.GraphElement) error {
 
 // DelEdge deletes edge with id `key`
 func (kgdb *KVInterfaceGDB) DelEdge(eid string) error {
+	kgdb.kvg.graphLock.Lock()
+	defer kgdb.kvg.graphLock.Unlock()
 	ekeyPrefix := EdgeKeyPrefix(kgdb.graph, eid)
 	var ekey []byte
 	kgdb.kvg.kv.View(func(it kvi.KVIterator) error {
@@ -203,6 +211,8 @@ func (kgdb *KVInterfaceGDB) DelEdge(eid string) error {
 
 // DelVertex deletes vertex with id `key`
 func (kgdb *KVInterfaceGDB) DelVertex(id string) error {
+	kgdb.kvg.graphLock.Lock()
+	defer kgdb.kvg.graphLock.Unlock()
 	vid := VertexKey(kgdb.graph, id)
 	if !kgdb.kvg.kv.HasKey(vid) {
 		return fmt.Errorf("Vertex Not Found")
